@@ -54,12 +54,15 @@ def parse_args_text(txt):
     return out, kw
 
 
-def run_crosshair(target, cond_t, path_t, tier, seed):
+def run_crosshair(target, cond_t, path_t, tier, seed, shard=None):
     """Returns dict(verdict, args, kwargs, message, stats, raw)."""
     cmd = ['timeout', '-k', '10', str(int(cond_t * 2 + 60)), VENV_PY, '-m', 'vf.xh', str(cond_t),
            str(path_t) if path_t else '-', target]
     t0 = time.time()
-    p = subprocess.run(cmd, cwd=HERE, env=env_for(tier, seed), capture_output=True, text=True)
+    env = env_for(tier, seed)
+    if shard:
+        env['VF_SHARD_I'], env['VF_SHARD_N'] = str(shard[0]), str(shard[1])
+    p = subprocess.run(cmd, cwd=HERE, env=env, capture_output=True, text=True)
     wall = time.time() - t0
     out = p.stdout
     res = {'target': target, 'verdict': 'inconclusive', 'message': '', 'stats': {}, 'wall_s': round(wall, 2),
@@ -193,13 +196,21 @@ def main(argv=None):
         for i in order:
             ob = jobs[i]
             if ob.get('engine', 'crosshair') == 'crosshair':
-                fut = ex.submit(run_crosshair, ob['fn'], pick(ob.get('timeout', (60, 240)), ti),
-                                pick(ob.get('path_timeout', (None, None)), ti), tier, seed)
+                n_sh = pick(ob.get('shards', (1, 1)), ti)
+                for k in range(n_sh):
+                    fut = ex.submit(run_crosshair, ob['fn'], pick(ob.get('timeout', (60, 240)), ti),
+                                    pick(ob.get('path_timeout', (None, None)), ti), tier, seed,
+                                    (k, n_sh) if n_sh > 1 else None)
+                    futs[fut] = (i, k, n_sh)
             else:
                 fut = ex.submit(run_smt, ob, tier, seed)
-            futs[fut] = i
+                futs[fut] = (i, 0, 1)
+        parts = {}
         for fut in cf.as_completed(futs):
-            results[futs[fut]] = fut.result()
+            i, k, n_sh = futs[fut]
+            parts.setdefault(i, {})[k] = fut.result()
+        for i, d in parts.items():
+            results[i] = merge_shards([d[k] for k in sorted(d)])
 
     # ------------------------------------------------------------------ 3. interpret
     violations = 0
@@ -292,6 +303,27 @@ def main(argv=None):
     if harness_error:
         return 3
     return 0
+
+
+def merge_shards(rs):
+    """Shards partition the input space of one obligation: confirmed only if every shard is; a counterexample of
+    any shard is the obligation's counterexample; otherwise the weakest verdict wins."""
+    if len(rs) == 1:
+        return rs[0]
+    out = dict(rs[0])
+    st = {'paths': 0, 'smt_queries': 0, 'smt_time_s': 0.0, 'shards': len(rs)}
+    for r in rs:
+        for k in ('paths', 'smt_queries', 'smt_time_s'):
+            st[k] += r.get('stats', {}).get(k, 0)
+    out['stats'] = st
+    out['wall_s'] = max(r.get('wall_s', 0) for r in rs)
+    for v in ('counterexample', 'harness_error', 'precondition_unmet', 'inconclusive'):
+        hit = [r for r in rs if r['verdict'] == v]
+        if hit:
+            out.update({k: hit[0].get(k) for k in ('verdict', 'message', 'args', 'kwargs', 'exception', 'raw')})
+            return out
+    out['verdict'] = 'confirmed'
+    return out
 
 
 def pick(v, ti):
